@@ -209,6 +209,15 @@ func reservedDomain() []reservedCase {
 			}
 		}
 	}
+	// stems that end in digits: their numbered fall-backs run into predeclared types (float3+2, int6+4, complex12+8 …)
+	for _, w := range []string{"float3", "float6", "int1", "int3", "int6", "uint1", "uint3", "uint6", "complex6", "complex12", "int", "uint"} {
+		for n := 1; n <= 10; n++ {
+			out = append(out, reservedCase{w, "last", "", n})
+			if n%3 == 0 {
+				out = append(out, reservedCase{w, "alias", "", n}, reservedCase{w, "last", "pkg", n})
+			}
+		}
+	}
 	kw := map[string]bool{}
 	for _, k := range oracle.Keywords() {
 		kw[k] = true
